@@ -114,7 +114,7 @@ def evaluate(case: dict[str, Any]) -> dict[str, Any]:
         options.process_error_codes(error_callback=errs.append)
         complaints += errs
         out: dict[str, Any] = {
-            "G": canon(options.snapshot()),
+            "G": canon(options.snapshot()) if not case.get("module_fields") else {},
             "targets": [[t.path, t.module] for t in targets],
             "M": {},
         }
@@ -127,7 +127,10 @@ def evaluate(case: dict[str, Any]) -> dict[str, Any]:
                 changes, cerrs = parse_mypy_comments(flags, o)
                 complaints += [f"inline:{ln}: {msg}" for ln, msg in cerrs]
                 o = o.apply_changes(changes)
-            out["M"][m] = canon(o.snapshot())
+            if case.get("module_fields"):  # cheap projection for the bulk lanes
+                out["M"][m] = {f: canon(getattr(o, f)) for f in case["module_fields"]}
+            else:
+                out["M"][m] = canon(o.snapshot())
         out["status"] = "rejected" if complaints else "ok"
         out["complaint"] = " | ".join(complaints)[:400]
         return out
@@ -161,7 +164,10 @@ def dead_fields() -> list[str]:
                 continue
             if rel == "mypy/main.py":  # option processing itself does not count as a reader
                 for fn in (mm.process_options, mm.infer_python_executable, mm.define_options):
-                    text = text.replace(inspect.getsource(fn), "")
+                    try:
+                        text = text.replace(inspect.getsource(fn), "")
+                    except (OSError, TypeError):  # e.g. a monkey-patched function: keep its text counted
+                        pass
             tok.update(re.findall(r"[A-Za-z_][A-Za-z0-9_]*", text))
     return sorted(k for k in Options().snapshot() if tok[k] <= 1)
 
